@@ -1292,6 +1292,7 @@ def tour(ex: Exec, max_len: int, deadline: float, protocol: bool = True,
     paths = 0
     nav_steps = 0
     skip_inits: set = set()
+    started: set = set()
     while pl.left() and time.time() < deadline:
         init = pl.best_init(skip_inits)
         if init is None:
@@ -1302,6 +1303,7 @@ def tour(ex: Exec, max_len: int, deadline: float, protocol: bool = True,
         if t.cur is None:
             ex.finish(t)
             break
+        started.add(model.core_of[t.cur])
         # (if the server started in another initial state of the model than
         # the one aimed at, the plan simply continues from there)
         covered = 0
@@ -1325,8 +1327,31 @@ def tour(ex: Exec, max_len: int, deadline: float, protocol: bool = True,
             # this initial state of the model is one the server does not start
             # in (the model leaves open whether local peers are trusted)
             skip_inits.add(init)
-    return {'pairs': total, 'uncovered': pl.left(), 'paths': paths,
+    # What is left lies in model states the server cannot be driven to: behind
+    # initial states it never starts in, or behind nondeterministic choices of
+    # the model it never makes (edges tried and not followed were dropped from
+    # the planner's navigation relation).
+    reach = set(started)
+    todo = list(started)
+    while todo:
+        x = todo.pop()
+        for dc, labels in pl.nav.get(x, {}).items():
+            if labels and dc not in reach:
+                reach.add(dc)
+                todo.append(dc)
+    unrealised = sum(len(v) for k, v in pl.remaining.items() if k not in reach)
+    unreal_states = sorted({core_str_from_core(k) for k, v in pl.remaining.items()
+                            if v and k not in reach})
+    return {'pairs': total - unrealised, 'uncovered': pl.left() - unrealised,
+            'pairs_in_states_the_server_never_enters': unrealised,
+            'states_never_entered': unreal_states[:12], 'paths': paths,
             'navigation_steps': nav_steps}
+
+
+def core_str_from_core(core) -> str:
+    d = dict(core)
+    return ' '.join(f'{k}={v}' for k, v in sorted(d.items())
+                    if k in ('auth', 'proof', 'tls', 'stls', 'mechs'))
 
 
 def run_labels(ex: Exec, env: str, labels, kind: str, probe_every: int = 1) -> None:
